@@ -62,6 +62,16 @@ def correspondence(res, tier, rng):
             res.count("%s=%s" % (k, case["desc"][k]))
         res.count("memory=%s" % ("full" if case["dkmax"] is None else
                                  ("cut<n" if case["dkmax"] < n else "cut>=n")))
+    # file-backed process tensors (HDF5) for a coupling whose diagonalising transform is neither
+    # real nor symmetric: the same contraction as with the in-memory tensor
+    for (label, coup) in file_couplings():
+        err = file_vs_tempo(coup)
+        res.case("file-backed PT-TEMPO, coupling " + label, True,
+                 {"coupling": label, "Tempo_vs_file_backed_PT+compute_dynamics": err})
+        res.count("file-backed")
+        if err > 1e-7:
+            res.disagree("file-backed PT-TEMPO + compute_dynamics differs from TEMPO by %g "
+                         "(coupling %s)" % (err, label), {"coupling": label})
     # long runs far beyond the memory cut-off with an infinite additional correlation time: the
     # theorems hold for every n; the model is too costly to evaluate there, so the two real code
     # paths the theorem equates are compared with each other (TEMPO vs PT-TEMPO + compute_dynamics)
@@ -184,6 +194,49 @@ def search(res):
                                     "max_state_difference": err})
 
 
+def file_couplings():
+    from oqupy import operators as op
+    mix = 0.5 * op.sigma("x") + 0.3 * op.sigma("y") + 0.4 * op.sigma("z")
+    return [("sigma_y/2", 0.5 * op.sigma("y")), ("0.5sx+0.3sy+0.4sz", mix)]
+
+
+def file_vs_tempo(coup, steps=4):
+    """max state difference between TEMPO and compute_dynamics on a file-backed PT-TEMPO tensor"""
+    import oqupy
+    from oqupy import operators as op
+    corr = oqupy.PowerLawSD(alpha=0.2, zeta=1.0, cutoff=3.0, cutoff_type="exponential",
+                            temperature=0.5)
+    bath = oqupy.Bath(coup, corr)
+    sysm = oqupy.System(0.4 * op.sigma("x") + 0.2 * op.sigma("z"))
+    par = oqupy.TempoParameters(dt=0.1, epsrel=1e-11, dkmax=None)
+    end = steps * 0.1 + 0.03
+    dt_ = oqupy.Tempo(sysm, bath, par, op.spin_dm("y+"), start_time=0.0).compute(
+        end, progress_type="silent")
+    ptf = oqupy.pt_tempo_compute(bath=bath, start_time=0.0, end_time=end, parameters=par,
+                                 process_tensor_file=True, progress_type="silent")
+    try:
+        df = oqupy.compute_dynamics(sysm, initial_state=op.spin_dm("y+"), process_tensor=ptf,
+                                    start_time=0.0, progress_type="silent")
+    finally:
+        ptf.close()
+        try:
+            ptf.remove()
+        except Exception:                       # noqa: BLE001 - temp file clean-up only
+            pass
+    if len(dt_.states) != len(df.states):
+        return float("inf")
+    return max(np.abs(np.array(a) - np.array(b)).max() for a, b in zip(dt_.states, df.states))
+
+
+def search_file(res):
+    for (label, coup) in file_couplings():
+        err = file_vs_tempo(coup, steps=5)
+        if err > 1e-6:
+            res.fail("Tempo-vs-PT:file-backed process tensor, coupling " + label,
+                     {"coupling": label, "process_tensor_file": True, "steps": 5, "dt": 0.1,
+                      "max_state_difference": err})
+
+
 def search_long(res):
     """runs far beyond the memory cut-off with an infinite additional correlation time and an
     algebraically decaying bath memory: TEMPO against PT-TEMPO + compute_dynamics"""
@@ -228,4 +281,4 @@ def run(tier, seed, replay):
         correspondence(res, tier, rng)
     except fw.Infra as e:
         res.oblige("correspondence run", False, str(e))
-    return fw.finish(res, lambda r: (search_long(r), search(r)))
+    return fw.finish(res, lambda r: (search_file(r), search_long(r), search(r)))
